@@ -94,6 +94,9 @@ enum Op {
     OpenWindow { who: Who },
     Wait { ms: u16 },
     Expire,
+    /// advance the clock to `past_ms` after the expiry instant of the armed fail-safe - into the
+    /// gap before the next one-per-second timeout poll - so that the NEXT command lands there
+    Lapse { past_ms: u16 },
     Restart,
     FailWrite { nth: u8 },
 }
@@ -108,6 +111,10 @@ struct C08Case {
     /// establish PASE / the CASE session on the new fabric by real handshakes
     real_sessions: bool,
     sched: Option<u64>,
+    /// the history starts that many ms after the device booted (the fail-safe timeout is polled
+    /// once per second from boot: this decides where the polls fall relative to the commands)
+    #[serde(default)]
+    skew_ms: u16,
     ops: Vec<Op>,
 }
 
@@ -121,6 +128,10 @@ fn arm_t() -> impl Strategy<Value = ArmT> {
 
 fn noc_variant() -> impl Strategy<Value = NocVariant> {
     prop_oneof![8 => Just(NocVariant::Good), 1 => Just(NocVariant::WrongKey), 1 => Just(NocVariant::BadAdminSubject)]
+}
+
+fn lapse_ms() -> impl Strategy<Value = u16> {
+    prop_oneof![3 => 1u16..20, 3 => 20u16..200, 2 => 200u16..900]
 }
 
 fn any_op() -> impl Strategy<Value = Op> {
@@ -146,6 +157,7 @@ fn any_op() -> impl Strategy<Value = Op> {
         1 => who().prop_map(|who| Op::OpenWindow { who }),
         2 => (0u16..3000).prop_map(|ms| Op::Wait { ms }),
         2 => Just(Op::Expire),
+        3 => lapse_ms().prop_map(|past_ms| Op::Lapse { past_ms }),
         2 => Just(Op::Restart),
         1 => (0u8..3).prop_map(|nth| Op::FailWrite { nth }),
     ]
@@ -246,10 +258,30 @@ enum Edit {
     Swap(u16),
     Rewho(u16, Who),
     Truncate(u16),
+    /// `Lapse` + a command landing in the expiry-to-poll gap
+    Gap(u16, u16, Op),
+}
+
+/// Commands worth landing in the gap between the expiry instant and the next timeout poll.
+fn gap_cmd() -> impl Strategy<Value = Op> {
+    prop_oneof![
+        5 => (who(), prop_oneof![(2u8..6).prop_map(ArmT::Short), (60u8..200).prop_map(ArmT::Long)]).prop_map(|(who, t)| Op::Arm { who, t }),
+        2 => who().prop_map(|who| Op::Arm { who, t: ArmT::Zero }),
+        3 => who().prop_map(|who| Op::Complete { who }),
+        2 => who().prop_map(|who| Op::AddNoc { who, v: NocVariant::Good }),
+        1 => (who(), any::<bool>()).prop_map(|(who, update)| Op::Csr { who, update }),
+        1 => who().prop_map(|who| Op::AddRoot { who, bad: false }),
+        1 => who().prop_map(|who| Op::UpdateNoc { who, v: NocVariant::Good }),
+        2 => (who(), 0u8..3, any::<u8>()).prop_map(|(who, extra, salt)| Op::Acl { who, extra, salt }),
+        1 => (who(), 1u8..3, any::<u8>()).prop_map(|(who, id, salt)| Op::KeySet { who, id, salt }),
+        1 => (who(), 0u8..3, any::<u8>()).prop_map(|(who, n, salt)| Op::AddWifi { who, n, salt }),
+        1 => who().prop_map(|who| Op::Revoke { who }),
+    ]
 }
 
 fn edit() -> impl Strategy<Value = Edit> {
     prop_oneof![
+        4 => (any::<u16>(), lapse_ms(), gap_cmd()).prop_map(|(p, ms, o)| Edit::Gap(p, ms, o)),
         5 => (any::<u16>(), any_op()).prop_map(|(p, o)| Edit::Insert(p, o)),
         2 => any::<u16>().prop_map(Edit::Delete),
         2 => any::<u16>().prop_map(Edit::Dup),
@@ -257,6 +289,10 @@ fn edit() -> impl Strategy<Value = Edit> {
         3 => (any::<u16>(), who()).prop_map(|(p, w)| Edit::Rewho(p, w)),
         1 => any::<u16>().prop_map(Edit::Truncate),
     ]
+}
+
+fn is_command(op: &Op) -> bool {
+    op_who(op).is_some()
 }
 
 fn op_who(op: &Op) -> Option<Who> {
@@ -322,6 +358,12 @@ fn apply_edits(mut ops: Vec<Op>, edits: &[Edit]) -> Vec<Op> {
             Edit::Delete(p) if n > 1 => {
                 ops.remove(vh::util::pick(*p, n));
             }
+            Edit::Gap(p, ms, o) => {
+                // somewhere after the first command (so that something is armed)
+                let i = 1 + vh::util::pick(*p, n);
+                ops.insert(i.min(n), o.clone());
+                ops.insert(i.min(n), Op::Lapse { past_ms: *ms });
+            }
             Edit::Dup(p) if n > 0 => {
                 let i = vh::util::pick(*p, n);
                 let o = ops[i].clone();
@@ -367,6 +409,7 @@ fn case_strategy(extended: bool) -> impl Strategy<Value = C08Case> {
             2 => who().prop_map(|who| Some(Op::Arm { who, t: ArmT::Zero })),
             1 => who().prop_map(|who| Some(Op::Revoke { who })),
             1 => Just(Some(Op::Expire)),
+            2 => lapse_ms().prop_map(|past_ms| Some(Op::Lapse { past_ms })),
             1 => Just(Some(Op::Restart)),
             1 => (0u8..3).prop_map(|nth| Some(Op::FailWrite { nth })),
         ],
@@ -398,7 +441,9 @@ fn case_strategy(extended: bool) -> impl Strategy<Value = C08Case> {
             let preexisting = if pase_first { pre_raw } else { pre_raw.max(1) };
             let window_open = if win_follow { pase_first } else { !pase_first };
             let ops = if extended { ops } else { strip_extended(ops) };
-            C08Case { seed, wifi, preexisting, window_open, real_sessions, sched, ops }
+            // (the seed's upper bits decide where the one-per-second polls fall)
+            let skew_ms = if seed & 0x10 == 0 { ((seed >> 16) % 1000) as u16 } else { 0 };
+            C08Case { seed, wifi, preexisting, window_open, real_sessions, sched, skew_ms, ops }
         })
 }
 
@@ -513,8 +558,14 @@ fn acl_entries(admin: u64, extra: u8, salt: u8) -> Vec<AclSpec> {
 
 /// Compare memory with BASE (+ the reboot image). Returns a failure (signature, detail).
 fn check_against_base<CC: rs_matter::crypto::Crypto>(b: &Boot<'_, CC>, m: &Model, what: &str) -> Option<(String, String)> {
+    check_against_base_ex(b, m, what, false)
+}
+
+/// `new_context`: a fail-safe context armed AFTER the one that ended is allowed to be there
+/// (it has staged nothing yet).
+fn check_against_base_ex<CC: rs_matter::crypto::Crypto>(b: &Boot<'_, CC>, m: &Model, what: &str, new_context: bool) -> Option<(String, String)> {
     let s = b.snapshot();
-    if s.armed {
+    if s.armed && !new_context {
         return Some((format!("{what}:still-armed"), "the fail-safe is still armed after it should have ended".into()));
     }
     let skip: BTreeSet<u8> = m.ambiguous.union(&m.tainted).copied().collect();
@@ -572,7 +623,7 @@ fn check_against_base<CC: rs_matter::crypto::Crypto>(b: &Boot<'_, CC>, m: &Model
     // The specification resets the breadcrumb to 0 on expiry, the statement restores the value
     // from before arming: both are accepted. (Outside a rollback the breadcrumb is free: e.g.
     // SetRegulatoryConfig sets it without a fail-safe; it is not persisted.)
-    if what.starts_with("rollback-") && !what.ends_with("restart") && s.breadcrumb != 0 && s.breadcrumb != m.pre_arm_breadcrumb {
+    if what.starts_with("rollback-") && !what.ends_with("restart") && what != "rollback-lapsed" && !new_context && s.breadcrumb != 0 && s.breadcrumb != m.pre_arm_breadcrumb {
         return Some((
             format!("{what}:breadcrumb"),
             format!("breadcrumb is {} after the fail-safe ended without commit (before arming: {})", s.breadcrumb, m.pre_arm_breadcrumb),
@@ -673,6 +724,10 @@ fn run_segment<CC: rs_matter::crypto::Crypto>(
     let gen = mk_crypto(case.seed ^ 0x5eed ^ (p.boot_no << 8));
     let mut sess = Sess { pase: None, case_a: None, case_b: None, case_new: None };
 
+    // the polls of the fail-safe timeout run once per second from boot
+    if case.skew_ms > 0 {
+        b.run_for(case.skew_ms as u64 * MS);
+    }
     // ---- after a (re)boot: memory must equal BASE
     if p.boot_no == 0 {
         rebase(b, m);
@@ -692,9 +747,16 @@ fn run_segment<CC: rs_matter::crypto::Crypto>(
         settle_ambiguous(b, m);
     }
 
+    // `Some` while the clock stands in the gap between the expiry instant of the armed fail-safe
+    // and the next timeout poll, waiting for the command that is to land there
+    let mut gap: Option<u64> = None;
     while p.pos < case.ops.len() && p.verdict.is_none() {
-        // ---- timer bookkeeping: never sit next to the expiry instant
-        if let Some(ctx) = &m.armed {
+        if gap.is_some() && !is_command(&case.ops[p.pos]) {
+            // nothing lands in the gap after all
+            gap = None;
+        }
+        // ---- timer bookkeeping: never sit next to the expiry instant (unless that is the point)
+        if let (Some(ctx), None) = (&m.armed, gap) {
             if clock::now() + 300 * MS >= ctx.expires_at {
                 let to = ctx.expires_at + 1500 * MS;
                 let d = to.saturating_sub(clock::now());
@@ -750,6 +812,16 @@ fn run_segment<CC: rs_matter::crypto::Crypto>(
                 }
                 continue;
             }
+            Op::Lapse { past_ms } => {
+                if let Some(ctx) = &m.armed {
+                    let to = ctx.expires_at + *past_ms as u64 * MS;
+                    if to > clock::now() {
+                        b.run_for(to - clock::now());
+                        gap = Some(ctx.expires_at);
+                    }
+                }
+                continue;
+            }
             Op::Restart => {
                 p.restart_pending = true;
                 return;
@@ -767,6 +839,23 @@ fn run_segment<CC: rs_matter::crypto::Crypto>(
                 continue;
             }
             _ => {}
+        }
+
+        // ---- meant for the expiry-to-poll gap, but a poll fell into the interval: plain expiry by timer
+        if gap.is_some() && m.armed.is_some() && !b.failsafe_armed() {
+            gap = None;
+            p.labels.push("gap:missed-poll-fell-into-the-interval".into());
+            let weight = m.armed.as_ref().map(|c| c.weight).unwrap_or(false);
+            end_of_context(m, &mut sess);
+            p.labels.push("rollback-by-timer".into());
+            if weight {
+                p.nontrivial = true;
+            }
+            if let Some((sig, d)) = check_against_base(b, m, "rollback-timer") {
+                fail(p, &sig, format!("before op #{op_no}: {d}"));
+                return;
+            }
+            settle_ambiguous(b, m);
         }
 
         // ---- who sends it
@@ -894,6 +983,23 @@ fn run_segment<CC: rs_matter::crypto::Crypto>(
             }
         };
 
+        // ---- a command in the gap between the expiry instant and the next timeout poll
+        // From the expiry instant on the lapsed context is dead as far as the statement goes: the
+        // command is predicted, and its effects are booked, against a model without it.
+        let mut lapsed: Option<(Ctx, u64)> = None;
+        if let Some(expired_at) = gap.take() {
+            if b.failsafe_armed() && clock::now() >= expired_at {
+                if let Some(ctx) = m.armed.clone() {
+                    lapsed = Some((ctx, expired_at));
+                    let weight = m.armed.as_ref().map(|c| c.weight).unwrap_or(false);
+                    // (the session handles `sp` resolved above stay in use for this command)
+                    end_of_context(m, &mut sess);
+                    if weight {
+                        p.nontrivial = true;
+                    }
+                }
+            }
+        }
         let window_open = b.window_open();
         let now = clock::now();
         if m.armed.is_none() {
@@ -1139,6 +1245,27 @@ fn run_segment<CC: rs_matter::crypto::Crypto>(
         let who_desc = format!("{who:?}(accessing fabric {af})");
 
         let expect = if kv_failed { Expect::Either } else { expect };
+        // In the gap the Matter text does not decide between "busy" (the lapsed context is still
+        // there for the device until the poll) and acceptance after rolling back first: what would
+        // be accepted on an unarmed node may be either. What must be refused stays so - in
+        // particular the lapsed context's own flow.
+        let expect = if lapsed.is_some() && expect == Expect::Accept { Expect::Either } else { expect };
+        let ctx_desc = match &lapsed {
+            Some((c, at)) => format!(
+                "the fail-safe context of fabric {} lapsed {} ms ago and not polled yet (csr={:?} root={:?} noc_done={})",
+                c.fabric,
+                (clock::now().saturating_sub(*at)) / MS,
+                c.csr,
+                c.root.is_some(),
+                c.noc_done
+            ),
+            None => ctx_desc,
+        };
+        if let Some((c, _)) = &lapsed {
+            p.labels.push(format!("gap:{}:{}:{}", name, if c.fabric == af { "same-context" } else { "other-context" }, if accepted { "accepted" } else { "refused" }));
+            p.labels.push(format!("gap:from-{who:?}"));
+            p.labels.push("gap:command-in-expiry-to-poll-gap".into());
+        }
         match (expect, accepted) {
             (Expect::Accept, false) => {
                 if !out.answered() {
@@ -1409,6 +1536,47 @@ fn run_segment<CC: rs_matter::crypto::Crypto>(
             }
             _ => {}
         }
+        // ---- after a command in the gap: let the next poll run, then everything the lapsed context
+        // staged must be undone, whatever the device answered in the gap
+        if let Some((old, expired_at)) = &lapsed {
+            let to = expired_at + 1500 * MS;
+            if to > clock::now() {
+                b.run_for(to - clock::now());
+            }
+            p.labels.push("rollback-by-timer".into());
+            if let Some(c) = &m.armed {
+                // a context armed in the gap with a short timeout may be over already
+                if clock::now() >= c.expires_at {
+                    b.run_for(1500 * MS);
+                    end_of_context(m, &mut sess);
+                }
+            }
+            let new_context = m.armed.is_some();
+            if let Some((sig, d)) = check_against_base_ex(b, m, "rollback-lapsed", new_context) {
+                fail(
+                    p,
+                    &sig,
+                    format!(
+                        "op #{op_no}: {name} from {who_desc} arrived {} ms after the fail-safe context of fabric {} had run out, before the next timeout poll, and was answered {}; after the poll: {d}",
+                        (now.saturating_sub(*expired_at)) / MS,
+                        old.fabric,
+                        out.brief()
+                    ),
+                );
+                return;
+            }
+            let absent: Vec<u8> = (1u8..=254).filter(|i| b.failsafe_armed_for(*i) && !b.snapshot().fabrics.contains_key(i)).collect();
+            if let Some(i) = absent.first() {
+                fail(
+                    p,
+                    "lapsed:armed-for-absent-fabric",
+                    format!("op #{op_no}: {name} from {who_desc} in the expiry-to-poll gap ({}); afterwards the fail-safe is armed for fabric {i}, which does not exist", out.brief()),
+                );
+                return;
+            }
+            settle_ambiguous(b, m);
+        }
+
         // ---- armed state must agree with the model (Either-class ops may have ended the context)
         let dev_armed = b.failsafe_armed();
         if dev_armed != m.armed.is_some() {
@@ -1585,6 +1753,176 @@ fn check_history(case: &C08Case) -> Case {
     Case::pass(p.nontrivial).labels(labels)
 }
 
+// ------------------------------------------------------------------------------------------
+// `failsafe-api`: the fail-safe context object driven directly
+// ------------------------------------------------------------------------------------------
+//
+// The Interaction Model looks for a timed-out fail-safe at the start of every exchange, so a
+// command never meets a lapsed-but-unpolled context there. `FailSafe` itself must not rely on
+// that: an armed context - lapsed or not - may only go away through `expire` / the timeout check
+// / `disarm`, which undo or commit what it staged. `arm` from another session context on top of
+// it must be refused, otherwise the old context is dropped with everything it staged left behind.
+
+#[derive(Debug, Clone, Serialize, Deserialize)]
+enum ApiOp {
+    /// `FailSafe::arm(secs > 0)` from session context 0 = PASE, 1 = CASE fabric 1, 2 = CASE fabric 2
+    Arm { ctx: u8, secs: u8 },
+    Advance { ms: u16 },
+    /// `FailSafe::check_failsafe_timeout` (what the once-per-second poll calls)
+    Poll,
+    /// `FailSafe::expire` (what ArmFailSafe(0) / RevokeCommissioning call)
+    Expire,
+}
+
+#[derive(Debug, Clone, Serialize, Deserialize)]
+struct ApiCase {
+    ops: Vec<ApiOp>,
+}
+
+fn api_strategy() -> impl Strategy<Value = ApiCase> {
+    prop::collection::vec(
+        prop_oneof![
+            5 => (0u8..3, 1u8..4).prop_map(|(ctx, secs)| ApiOp::Arm { ctx, secs }),
+            4 => prop_oneof![1u16..50, 50u16..1200, 1200u16..4000].prop_map(|ms| ApiOp::Advance { ms }),
+            2 => Just(ApiOp::Poll),
+            1 => Just(ApiOp::Expire),
+        ],
+        1..24,
+    )
+    .prop_map(|ops| ApiCase { ops })
+}
+
+/// A key-value store access over a `MemKv` (the two commissioned fabrics live in it).
+struct KvAcc(std::cell::RefCell<MemKv>);
+
+impl rs_matter::persist::KvBlobStoreAccess for &KvAcc {
+    fn access<F, R>(&self, f: F) -> R
+    where
+        F: FnOnce(&mut dyn rs_matter::persist::KvBlobStore, &mut [u8]) -> R,
+    {
+        let mut buf = vec![0u8; 4096];
+        f(&mut *self.0.borrow_mut(), &mut buf)
+    }
+}
+
+thread_local! {
+    /// KV image with fabrics 1 and 2 commissioned (built once per worker thread, fixed seed)
+    static API_KV: std::cell::OnceCell<Option<BTreeMap<u16, Vec<u8>>>> = const { std::cell::OnceCell::new() };
+}
+
+fn api_kv_image() -> Option<BTreeMap<u16, Vec<u8>>> {
+    API_KV.with(|c| {
+        c.get_or_init(|| {
+            let gen = mk_crypto(0xA91);
+            let a = FabricKit::new(&gen, 0xA1, false, 0x1001, 3).ok()?;
+            let bb = FabricKit::new(&gen, 0xB2, false, 0x1002, 4).ok()?;
+            let da = a.device_member(&gen, 0x2000).ok()?;
+            let db = bb.device_member(&gen, 0x2001).ok()?;
+            initial_kv(&gen, &[(&a, &da), (&bb, &db)]).ok()
+        })
+        .clone()
+    })
+}
+
+fn check_failsafe_api(case: &ApiCase) -> Case {
+    use rs_matter::dm::clusters::net_comm::DummyNetworkAccess;
+    use rs_matter::failsafe::FailSafe;
+    use rs_matter::fabric::Fabrics;
+    use rs_matter::sc::pase::Pase;
+    use rs_matter::transport::session::{NocCatIds, SessionMode, Sessions};
+
+    vh::sim::reset_universe();
+    let Some(image) = api_kv_image() else {
+        return Case::inconclusive("cannot build the fabrics for the API check");
+    };
+    let kv = KvAcc(std::cell::RefCell::new(MemKv::from_map(image)));
+    let mut fs = Box::new(FailSafe::new());
+    let mut fabrics = Box::new(Fabrics::new());
+    {
+        let mut buf = vec![0u8; 4096];
+        if let Err(e) = fabrics.load_persist(&mut *kv.0.borrow_mut(), &mut buf) {
+            return Case::inconclusive(format!("cannot load the fabrics: {:?}", e.code()));
+        }
+    }
+    let mut sessions = Box::new(Sessions::new());
+    let mut pase = Box::new(Pase::new());
+    let mode = |c: u8| match c {
+        0 => SessionMode::Pase { fab_idx: 0 },
+        f => SessionMode::Case { fab_idx: core::num::NonZeroU8::new(f).unwrap(), cat_ids: NocCatIds::default() },
+    };
+    // (context fabric, expires at)
+    let mut model: Option<(u8, u64)> = None;
+    let mut lapsed_arms = 0;
+    for (i, op) in case.ops.iter().enumerate() {
+        match op {
+            ApiOp::Advance { ms } => clock::advance_by(*ms as u64 * MS),
+            ApiOp::Poll => {
+                let r = fs.check_failsafe_timeout(&mut fabrics, &mut sessions, DummyNetworkAccess, &kv, None, || {}, |_, _| {});
+                if let Err(e) = r {
+                    return Case::fail("api:timeout-check-failed", format!("op #{i}: check_failsafe_timeout returned {:?}", e.code()));
+                }
+                if let Some((_, exp)) = model {
+                    if clock::now() >= exp {
+                        model = None;
+                    }
+                }
+            }
+            ApiOp::Expire => {
+                let r = fs.expire(&mut fabrics, &mut sessions, None, DummyNetworkAccess, &kv, || {}, |_, _| {});
+                if let Err(e) = r {
+                    return Case::fail("api:expire-failed", format!("op #{i}: expire returned {:?}", e.code()));
+                }
+                model = None;
+            }
+            ApiOp::Arm { ctx, secs } => {
+                let r = fs.arm(*secs as u16, i as u64, &mode(*ctx), &mut pase);
+                match (model, r.is_ok()) {
+                    (None, true) => model = Some((*ctx, clock::now() + *secs as u64 * SEC)),
+                    (None, false) => {
+                        return Case::fail("api:arm-refused-while-idle", format!("op #{i}: arm({secs}) from context {ctx} refused although no context is armed"));
+                    }
+                    (Some((f, exp)), ok) => {
+                        let lapsed = clock::now() >= exp;
+                        if lapsed {
+                            lapsed_arms += 1;
+                        }
+                        if f == *ctx {
+                            // re-arm by the owner (of a lapsed context: either)
+                            if ok {
+                                model = Some((f, clock::now() + *secs as u64 * SEC));
+                            } else if !lapsed {
+                                return Case::fail("api:rearm-refused", format!("op #{i}: re-arm by the owning context {ctx} refused"));
+                            }
+                        } else if ok {
+                            return Case::fail(
+                                "api:armed-context-replaced-without-rollback",
+                                format!(
+                                    "op #{i}: arm({secs}) from session context {ctx} succeeded on top of the context of {f}, which {} and was never expired (no expire / timeout check in between): whatever it staged is left behind; is_armed_for({f}) = {}, is_armed_for({ctx}) = {}",
+                                    if lapsed { "had run out but was not polled yet" } else { "was still running" },
+                                    fs.is_armed_for(f),
+                                    fs.is_armed_for(*ctx)
+                                ),
+                            );
+                        }
+                    }
+                }
+            }
+        }
+        if fs.is_armed() != model.is_some() {
+            return Case::fail(
+                "api:armed-flag",
+                format!("after op #{i} ({op:?}) is_armed() = {} but by the history it must be {}", fs.is_armed(), model.is_some()),
+            );
+        }
+        if let Some((f, _)) = model {
+            if !fs.is_armed_for(f) {
+                return Case::fail("api:armed-for", format!("after op #{i} ({op:?}) the context is not armed for {f} any more"));
+            }
+        }
+    }
+    Case::pass(lapsed_arms > 0).label(if lapsed_arms > 0 { "arm-on-lapsed-unpolled-context" } else { "no-lapsed-arm" })
+}
+
 fn main() {
     let mut run = Run::new(
         "C08",
@@ -1605,5 +1943,8 @@ fn main() {
     // command list but change what the snapshot covers (label, VID verification statement).
     let n = run.cases(1_000, 50_000);
     run.prop("extended-histories", n, || case_strategy(true), check_history);
+    // the fail-safe object driven directly (no exchange-start timeout check in front of it)
+    let n = run.cases(20_000, 500_000);
+    run.prop("failsafe-api", n, api_strategy, check_failsafe_api);
     run.finish();
 }
